@@ -16,7 +16,7 @@ import pickle
 import struct
 import sys
 
-from vf import gen
+from vf import gen, tu
 from vf.core import hyp_run
 
 PROPERTY = 'C10'
